@@ -5,6 +5,7 @@ import (
 	"fmt"
 	"testing"
 
+	simplefixgo "github.com/b2broker/simplefix-go"
 	"github.com/b2broker/simplefix-go/fix"
 	"github.com/b2broker/simplefix-go/session/messages"
 	"github.com/b2broker/simplefix-go/storages/memory"
@@ -20,6 +21,7 @@ import (
 type C10Case struct {
 	Script
 	Reuse bool `json:"reuse"` // the application reuses one message object for all its sends
+	Stamp bool `json:"stamp"` // an application outgoing handler stamps every message that has a Text field (the documented use of HandleOutgoing): what goes out first, and is stored, carries the stamp
 }
 
 func genC10(t *rapid.T) *C10Case {
@@ -77,11 +79,22 @@ func genC10(t *rapid.T) *C10Case {
 		}
 	}
 	c.MaxHB = g.maxHB
+	c.Stamp = !c.Reuse && rapid.IntRange(0, 3).Draw(t, "stamp") == 0
+	// a message store that keeps its messages per session identity (the StorageID it is given)
+	c.Cfg.PartitionStore = rapid.IntRange(0, 2).Draw(t, "partitionStore") == 0
 	return c
 }
 
 func checkC10(c *C10Case, rec *evid.Rec) (vs []pbt.Violation) {
 	hooks := &rig.Hooks{}
+	if c.Stamp {
+		hooks.BeforeRun = func(h *simplefixgo.DefaultHandler, log *rig.EventLog) {
+			h.HandleOutgoing(simplefixgo.AllMsgTypes, func(msg simplefixgo.SendingMessage) bool {
+				setText(msg, "STAMPED") // idempotent: a retransmission passes through the handlers again
+				return true
+			})
+		}
+	}
 	if c.Reuse {
 		shared := rig.NewApp("shared")
 		hooks.AppMessage = func(st *rig.Step) messages.Message { return shared }
@@ -188,6 +201,12 @@ func checkC10(c *C10Case, rec *evid.Rec) (vs []pbt.Violation) {
 	}
 	rec.Case(evid.FPs(abstract), nontrivial)
 	rec.Hist("role:" + c.Cfg.Role)
+	if c.Stamp {
+		rec.Hist("stamping-outgoing-handler")
+	}
+	if c.Cfg.PartitionStore {
+		rec.Hist("store-partitioned-by-identity")
+	}
 	for _, o := range first {
 		if t, _ := rig.Decode(o).Get(rig.TagMsgType); t == rig.TTestRequest {
 			rec.Hist("prefix-holds-session-testrequest")
